@@ -115,6 +115,8 @@ def e_get_many(c):
     I = c.idx(int(c.rng.integers(1, 6)))
     if c.rng.random() < 0.3:
         I = c.own(I.tolist())
+    elif c.rng.random() < 0.3:
+        I = c.own(np.asarray(I, dtype=np.int32))
     return Call('get_many', teneva.get_many, [c.tt(), I])
 
 
@@ -181,6 +183,9 @@ def e_accuracy(c):
         A = c.own(c.rng.standard_normal((3, 4)))
         B = c.own(c.rng.standard_normal((3, 4)))
         return Call('accuracy', teneva.accuracy, [A, B])
+    if c.rng.random() < 0.2:
+        Y = c.tt()
+        return Call('accuracy', teneva.accuracy, [Y, Y])          # the same object as both arguments
     return Call('accuracy', teneva.accuracy, [c.tt(), c.tt()])
 
 
@@ -209,18 +214,27 @@ for _nm in ('add', 'mul', 'sub'):
 
 @entry()
 def e_mul_scalar(c):
-    return Call('mul_scalar', teneva.mul_scalar, [c.tt(), c.tt()], {'use_stab': bool(c.rng.integers(0, 2))})
+    Y1 = c.tt()
+    Y2 = Y1 if c.rng.random() < 0.25 else c.tt()
+    return Call('mul_scalar', teneva.mul_scalar, [Y1, Y2], {'use_stab': bool(c.rng.integers(0, 2))})
 
 
 @entry()
 def e_outer(c):
-    return Call('outer', teneva.outer, [c.tt(), c.tt()])
+    Y1 = c.tt()
+    Y2 = Y1 if c.rng.random() < 0.25 else c.tt()
+    return Call('outer', teneva.outer, [Y1, Y2])
 
 
 @entry()
 def e_add_many(c):
     k = int(c.rng.integers(1, 5))
-    lst = c.own([c.tt() for _ in range(k)], shallow=True)
+    items = [c.tt() for _ in range(k)]
+    if c.rng.random() < 0.25:
+        items.append(items[0])                       # the same tensor object twice in the list
+    if c.rng.random() < 0.2:
+        items = items + [c.tt() for _ in range(int(c.rng.integers(12, 20)))]      # long sums (periodic rounding inside)
+    lst = c.own(items, shallow=True)
     kw = {}
     if c.rng.random() < 0.6:
         kw = {'e': 1e-8, 'r': int(c.rng.integers(1, 6)), 'trunc_freq': int(c.rng.integers(1, 4))}
@@ -1033,12 +1047,15 @@ def e_cross(c):
     n = list(c.n)
     st = {'calls': 0}
     none_at = int(c.rng.integers(2, 12)) if c.rng.random() < 0.2 else None
+    raise_at = int(c.rng.integers(1, 12)) if c.rng.random() < 0.1 else None
 
     def f(I):
         c.monitor('cross.f')
         st['calls'] += 1
         if none_at is not None and st['calls'] == none_at:
             return None
+        if raise_at is not None and st['calls'] == raise_at:
+            raise KeyError('objective failed at call %d' % raise_at)      # the user's function may fail: the exception propagates
         return T[tuple(np.asarray(I).T)]
     Y0 = c.tt(r=int(c.rng.integers(1, 3)))
     kw = {'nswp': int(c.rng.integers(1, 4))}
@@ -1115,7 +1132,8 @@ def _als_data(c):
 @entry(weight=4)
 def e_als(c):
     I, y = _als_data(c)
-    I = c.own(I.tolist()) if c.rng.random() < 0.15 else c.own(I)
+    u = c.rng.random()
+    I = c.own(I.tolist()) if u < 0.15 else (c.own(I.astype(np.int32)) if u < 0.3 else c.own(I))
     y = c.own(y)
     Y0 = c.tt(r=int(c.rng.integers(1, 4)))
     kw = {'nswp': int(c.rng.integers(1, 4))}
